@@ -2673,8 +2673,6 @@ class Parameters:
         return _ParametersRestorer(parameters=self_, restore=restore, refs=refs)
 
     def _update(self_, arg=Undefined, /, **kwargs):
-        BATCH_WATCH = self_._BATCH_WATCH
-        self_._BATCH_WATCH = True
         self_or_cls = self_.self_or_cls
         if arg is not Undefined:
             kwargs = dict(arg, **kwargs)
@@ -2684,11 +2682,16 @@ class Parameters:
             if k in self_ and hasattr(self_[k], '_autotrigger_value')
         ]
 
-        for tp in trigger_params:
-            self_[tp]._mode = 'set'
-
         values = self_.values()
         restore = {k: values[k] for k, v in kwargs.items() if k in values}
+
+        # (only now: whatever fails above - an argument that is not a
+        # mapping, a value that cannot be read - must not leave the batching
+        # flag up or the Event parameters in 'set' mode)
+        BATCH_WATCH = self_._BATCH_WATCH
+        self_._BATCH_WATCH = True
+        for tp in trigger_params:
+            self_[tp]._mode = 'set'
 
         try:
             try:
